@@ -27,7 +27,7 @@ RULES = [
  (r"message_integrity(_sha256)?::MessageIntegrity(Sha256)? as .*>::post_encode", r"slice-op", "copy_from_slice(&hmac) into raw_value[..N]: hmac-sha1 / hmac-sha256 return exactly 20 / 32 bytes"),
  (r"raw::RawAttributesIter<'a> as fallible_iterator::FallibleIterator>::next", r".*", "struct invariant pos <= buffer.len(): pos starts at 0, grows only by a size that RawAttribute::decode bounds-checked plus padding, and next() returns Err as soon as pos > len (every caller stops on Err: FallibleIterator protocol)", "attribute iterator invariant (C03 R3.5)"),
  (r"context::MessageDecoder::decode", r".*", "index = 20 + iter.pos() <= 20 + msg_length <= buffer.len() (RawMessage::decode checked 20 + msg_length; iterator invariant pos <= len(attributes)); position counts loop iterations", "attribute iterator invariant (C03 R3.5)"),
- (r"context::MessageEncoder::encode", r".*", "loop-carried facts of the encode loop: coded_index = 20 + length where every previous iteration bounds-checked its header, value (encoder contract: returned size <= checked length) and padding inside `attributes`; the header check against 20 and the per-iteration checks are discharged by the prover"),
+ (r"context::MessageEncoder::encode", r".*", "loop-carried facts of the encode loop: coded_index = 20 + length where every previous iteration bounds-checked its header, value (encoder contract: returned size <= checked length) and padding inside `attributes`; the header check against 20 and the per-iteration checks are discharged by the prover", "encode loop invariant (C14 R14.6)"),
  (r"raw::get_input_text", r".*", "pos comes from the attribute iterator (pos <= len(attributes)), so index = pos + 20 <= buffer length checked by RawMessage::decode; out = buffer[..index].to_vec() has at least 20 bytes for out[2..4]", "attribute iterator invariant (C03 R3.5)"),
  (r"strings::formatted_quoted_string_from", r".*", "pos counts leading/trailing removable characters, all of which are single-byte ASCII (CR, LF, SP, HTAB, DQUOTE), so char counts equal byte offsets and fall on char boundaries", "is_removable_character accepts only code points < 0x80"),
  (r"common::socket_addr_xor", r".*", "i comes from enumerate().take(4) resp. take(16).skip(4): 24 - 8*i in 0..=24 and i - 4 in 0..12 (iterator adaptor bounds, not modelled)"),
